@@ -245,11 +245,6 @@ Theorem C03_datetime_lowercase_refuted : exists t, datetime_grammar_ci t = true 
 Proof. exists (s2l "19970714T120000z"). vm_compute. split; reflexivity. Qed.
 Print Assumptions C03_datetime_lowercase_refuted.
 
-(* not a finding but a platform limit: beyond 4300 digits CPython's str(int) raises *)
-Theorem C03_int_limit : enc_int (10 ^ 4300) = ValueErr.
-Proof. vm_compute. reflexivity. Qed.
-Print Assumptions C03_int_limit.
-
 (* ============================== non-vacuity ============================== *)
 Example C03_nonvacuous :
   valid_date 2000 2 29 = true /\ enc_date 2000 2 29 = Ok (s2l "20000229")
